@@ -149,6 +149,9 @@ def violation_result(v, sig, trace, ctr, cons, st, conf, wl):
         count_run(ctr, cons, st, conf, wl)
     detail = dict(v.detail)
     detail['trace_tail'] = trace[-12:]
+    from simkit import streams
+    detail['cache_drops'] = streams.DROP_EVENTS['drops']
+    detail['cache_drops_inside_definite_frame'] = streams.DROP_EVENTS['inside_definite']
     if wl is not None:
         detail['stream_hex'] = wl.stream.hex()[:600]
         detail['bounds'] = wl.bounds
